@@ -6,6 +6,7 @@ import (
 	"bufio"
 	"bytes"
 	"encoding/binary"
+	"encoding/json"
 	"fmt"
 	"math/bits"
 	"sync"
@@ -109,7 +110,10 @@ type field struct {
 	off, width int // width 8/4/1: little-endian integer field; width 0: one byte of a JSON text
 }
 
-func isJSONText(b []byte) bool { return len(b) > 0 && (b[0] == '{' || b[0] == '[' || b[0] == '"') }
+// isJSONText: the whole encoding is one JSON text (metadata, scales, parameter sets and literals).
+func isJSONText(b []byte) bool {
+	return len(b) > 0 && (b[0] == '{' || b[0] == '[' || b[0] == '"') && json.Valid(b)
+}
 
 // headerFields locates candidate length/flag/presence fields structurally: every byte of the first 64,
 // every position holding a small little-endian 64-bit or 32-bit integer (lengths, counts, decomposition
@@ -174,7 +178,7 @@ func corruptValues(ref []byte, f field) (vals [][]byte) {
 		for bit := 0; bit < 8; bit++ {
 			vals = append(vals, []byte{orig ^ 1<<bit})
 		}
-		for _, v := range []byte{'0', '9', '"', '}', ',', 0x00, 0xff} {
+		for _, v := range []byte{'9', '"', 0x00} {
 			if v != orig {
 				vals = append(vals, []byte{v})
 			}
@@ -287,7 +291,7 @@ func (x *lc) dangers(d decoder, ref []byte) []danger {
 						dz.site = o2.Site
 					}
 				}
-				if !confirmed {
+				if !confirmed || dz.site == "" {
 					confirmed = true
 					// smallest power of two whose extrapolated allocation exceeds the limit
 					v := uint64(probeLen)
@@ -295,6 +299,11 @@ func (x *lc) dangers(d decoder, ref []byte) []danger {
 						v <<= 1
 					}
 					o3 := runJob(hdr, x.corruptJob(d, o, enc(f, v), false))
+					if dz.site == "" { // no panic names the decoder that trusts this length: ask the heap profile
+						if dz.site = o3.AllocSite; o3.Fatal != "" && o3.FatalSite != "unknown" {
+							dz.site = o3.FatalSite
+						}
+					}
 					switch {
 					case o3.Fatal != "":
 						dz.confirmed = fmt.Sprintf("confirmed: with the field set to 2^%d the process was killed (fatal error: %s)", bits.Len64(v)-1, o3.Fatal)
@@ -342,6 +351,9 @@ func famCorruption(x *lc) {
 		return
 	}
 	x.c.Cover("corrupt-decoder", d.name)
+	// JSON texts: a damaged byte may rename or drop a key, which encoding/json accepts by design; only panics and
+	// allocations are judged there, not the validity of what was accepted
+	jsonText := isJSONText(ref)
 	dz := x.dangers(d, ref)
 	subj := baseDecl(x.o.obj, d.method)
 	rejected, accepted, skipped := 0, 0, 0
@@ -374,7 +386,7 @@ func famCorruption(x *lc) {
 				skipped++
 				continue
 			}
-			jobs = append(jobs, x.corruptJob(d, f.off, val, true))
+			jobs = append(jobs, x.corruptJob(d, f.off, val, !jsonText))
 			whats = append(whats, fmt.Sprintf("%s with the %d-byte field at offset %d set to %x", d.name, w, f.off, val))
 		}
 	}
